@@ -408,7 +408,8 @@ def drive(job):
                         partner[h_ - 1] = x_ - 1
             for k, z in enumerate(zs):
                 moved = bool(pos1.shape == pos0.shape and np.max(np.abs((pos1[k] - pos0[k]) @ d1)) > 1e-9) if pos1.shape == pos0.shape else True
-                xz, ln = 0, 0
+                # structures that do not declare their bonds (generated ones): which hydrogens have a partner is not known here
+                xz, ln = (0 if rec.get("bonds") else -1), 0
                 if z == 1 and k in partner:
                     xz = zs[partner[k]]
                     dv = pos1[k] - pos1[partner[k]]
